@@ -4,7 +4,11 @@
   `F.sizedParams` those of the generated main impl.
 -/
 import DisjointImpls.Lemmas.Refine
+import DisjointImpls.Lemmas.UnsizedSearch
+import DisjointImpls.Lemmas.UnsizedExpand
+import DisjointImpls.Props.C01
 import DisjointImpls.Props.C02
+import DisjointImpls.Props.C05
 namespace DI
 
 /-- no leak: a member selected for `q` matches `q` with a substitution that instantiates every parameter the
@@ -92,5 +96,530 @@ example :
     injection he with _ _ h3
     injection h3
   rw [this]; decide
+
+/-! ## The `?Sized` set computed by the grouping search, and `SizedCompat` from the search (Lemmas/UnsizedSearch.lean)
+
+  `e = (header, abg, members)` is a family of the accepted grouping; `abg.unsized` is the `unsized_params` set of
+  `AssocBoundsGroup`; `b.unsized` the bounded types on which block `b` wrote a `?Trait` bound (inline or where-clause).
+  NOTE (model = code, lib.rs:543-559): a bound `T: ?Sized` is itself recorded as a key `(T, Sized)` without bindings. It
+  takes part in the intersections and is removed only by `prune_non_assoc`. Hence the key set that decides what the
+  `retain` of lib.rs:472 keeps is the one BEFORE pruning (`keys0` below), not the keys of the final family. -/
+
+/-- **The computed set, for every accepted input and every family.** There is a key list `keys0` — the keys of the
+    search candidate as they were after the last member joined, before `prune_non_assoc` — of which the family's keys are
+    the ones with a binding, such that
+    * a single-member family has `keys0 = ` the keys of `ABG.new` of that member and `abg.unsized = ` the member's own set;
+    * in a family with two or more members, `p ∈ abg.unsized` iff some member relaxed `p` (by spelling) and `p` is the
+      bounded type of a key in `keys0`.
+    No side condition. -/
+theorem C15_unsized_of_search (items : List T) (groups : Groups) (h : parseGroups items = .ok groups) :
+    ∀ e ∈ groups, ∃ keys0 : List (BKey × List Row),
+      e.2.1.bounds = keys0.filter (fun kr => kr.2.any (fun r => !r.isEmpty)) ∧
+      ((∃ b, e.2.2 = [b] ∧ keys0 = (ABG.new b).bounds ∧ e.2.1.unsized = b.unsized) ∨
+       (2 ≤ e.2.2.length ∧
+         ∀ p, p ∈ e.2.1.unsized ↔ (∃ b ∈ e.2.2, p ∈ b.unsized) ∧ p ∈ keys0.map (fun kr => kr.1.1))) := by
+  intro e he
+  obtain ⟨e0, ⟨hne, hone, htwo⟩, rfl⟩ := parseGroups_unsizedInv_uz h he
+  refine ⟨e0.2.1.bounds, rfl, ?_⟩
+  cases hms : e0.2.2 with
+  | nil => exact absurd hms hne
+  | cons b1 tl =>
+    cases tl with
+    | nil => exact Or.inl ⟨b1, rfl, by rw [hone b1 hms], by rw [prune_unsized_uz, hone b1 hms]; rfl⟩
+    | cons b2 tl =>
+      refine Or.inr ⟨by simp, ?_⟩
+      have := htwo (by rw [hms]; simp)
+      rw [hms] at this
+      exact this
+
+/-- **What the main impl relaxes, order-free and search-free**, for every family (one member or many) of every accepted
+    input: the main impl writes `p: ?Sized + …` (`mainRelaxed_uz e p`: `p ∈ abg.unsized` and `p` is the bounded type of a
+    key of the family) exactly for the bounded types `p` of the family's (surviving) keys that SOME member relaxed — whichever
+    member, inline or in the where-clause. -/
+theorem C15_main_relaxed_characterised (items : List T) (groups : Groups) (h : parseGroups items = .ok groups) :
+    ∀ e ∈ groups, ∀ p, mainRelaxed_uz e p ↔ (∃ b ∈ e.2.2, p ∈ b.unsized) ∧ p ∈ keyTypes_uz e.2.1 :=
+  fun _ he p => mainRelaxed_iff_uz h he p
+
+/-- soundness of the executable check `sizedCompatB` (Bounds.lean), general case: in every world in which every
+    constructed type other than a slice or a trait object is `Sized` (`SizedWorld_uz W`; NOTE that `str`, a `Type::Path`,
+    must be `Sized` in such a world — the constructed-type arm of `sizedCompatB` is not sound for `θ(p) = str`) -/
+theorem C15_sizedCompatB_sound (W : World) (hW : SizedWorld_uz W) (F : Family) (m : Member)
+    (h : sizedCompatB F m = true) : SizedCompat W F m :=
+  sizedCompatB_sound_uz W hW F m h
+
+/-- … and in EVERY world (`str` unsized included) for a member whose substitution assigns no constructed type
+    (`noCtor_uz m.θ`, executable; in particular every member of an un-nested family) -/
+theorem C15_sizedCompatB_sound_noCtor (W : World) (F : Family) (m : Member) (hθ : noCtor_uz m.θ = true)
+    (h : sizedCompatB F m = true) : SizedCompat W F m :=
+  sizedCompatB_sound_noCtor_uz W F m hθ h
+
+/-- **`SizedCompat` from the search, flat case.** `mainSizedParams_uz e` are the `Sized` parameters of the main impl as the
+    generator determines them (type parameters of the first member, minus those `x` with `x ∈ abg.unsized` and `x` the
+    bounded type of a key with an associated-type identifier). Side conditions, all executable, per family:
+    * `noNesting items`, `selfIdentity e.1` (the header matches itself with identity bindings);
+    * `mainParamsOK_uz e`: every `Sized` parameter of the main impl is bound by the header's self-match and is declared as
+      a TYPE parameter by every member;
+    * `relaxedAreKeys_uz e` — the negation of D7's shape: a type parameter that some member relaxes is itself the bounded
+      type of a key of the family (there is NO exemption for single-member families: the main impl only relaxes bounded
+      types of keys, `C15_counterexample_D7_single`). -/
+theorem C15_sizedCompat_of_search_flat (items : List T) (groups : Groups) (h : parseGroups items = .ok groups)
+    (hn : noNesting items = true) :
+    ∀ e ∈ groups, selfIdentity e.1 = true → mainParamsOK_uz e = true → relaxedAreKeys_uz e = true →
+      ∀ m ∈ (familyOfGroup (mainSizedParams_uz e) e).members,
+        sizedCompatB (familyOfGroup (mainSizedParams_uz e) e) m = true :=
+  fun _ he hs hp hr => flat_sizedCompatB_uz h (noNesting_spec items hn) he hs hp hr
+
+/-- … also for every main impl that requires `Sized` of fewer parameters (`sp ⊆ mainSizedParams_uz e`; e.g. the trait's own
+    where-clause relaxes one more), and then `SizedCompat` holds in EVERY world -/
+theorem C15_sizedCompat_of_search_flat_sem (items : List T) (groups : Groups) (h : parseGroups items = .ok groups)
+    (hn : noNesting items = true) (W : World) :
+    ∀ e ∈ groups, selfIdentity e.1 = true → mainParamsOK_uz e = true → relaxedAreKeys_uz e = true →
+      ∀ sp : List String, (∀ p ∈ sp, p ∈ mainSizedParams_uz e) →
+      ∀ m ∈ (familyOfGroup sp e).members, sizedCompatB (familyOfGroup sp e) m = true ∧ SizedCompat W (familyOfGroup sp e) m :=
+  fun _ he hs hp hr sp hsub m hm =>
+    ⟨flat_sizedCompatB_sub_uz h (noNesting_spec items hn) he hs hp hr sp hsub m hm,
+     flat_sizedCompat_uz h (noNesting_spec items hn) he hs hp hr sp hsub W m hm⟩
+
+/-- the header part of `mainParamsOK_uz` in the terms of `hdrCoversB`: a parameter that occurs in a header which is `wf`
+    for the matcher and matches itself without a lenient arm is bound to the identity by the self-match -/
+theorem C15_selfSubst_identity (gid : T) (hclean : selfClean gid = true) (hwf : wf gid = true) (p : String)
+    (hp : p ∈ params gid) : lookup (selfSubst_uz gid) p = some .identity :=
+  selfSubst_identity_uz hclean hwf hp
+
+/-- **Exactness from the search, flat case, per member**: for an accepted un-nested invocation and a family that passes the
+    executable check `unsizedFlatOK_uz e` (= `flatGroupOK e && hdrCoversB F && mainParamsOK_uz e && relaxedAreKeys_uz e`,
+    `F` the abstraction of the family with the main impl's own `Sized` parameters), in every world in which the dispatch
+    traits define their associated types: a member is selected for a query EXACTLY when its block applies to it —
+    including queries that instantiate a relaxed parameter with an unsized type (whichever member wrote the relaxation:
+    the main impl relaxes the parameter if any member did, `C15_main_relaxed_characterised`), and excluding them for a
+    member that did not relax it (`applies` requires `sizedOK` of the member's own non-relaxed parameters). -/
+theorem C15_unsized_exact_flat (items : List T) (groups : Groups) (h : parseGroups items = .ok groups)
+    (hn : noNesting items = true) (W : World) :
+    ∀ e ∈ groups, unsizedFlatOK_uz e = true → WorldTotal W (familyOfGroup (mainSizedParams_uz e) e) →
+      ∀ m ∈ (familyOfGroup (mainSizedParams_uz e) e).members, ∀ q,
+        genSel W (familyOfGroup (mainSizedParams_uz e) e) m q ↔
+          ∃ ρ, wkB ρ m.blk = true ∧ inst ρ m.blk.hdr = q ∧ (∀ c ∈ m.blk.clauses, holds W ρ c) ∧
+            sizedOK W ρ m.blk.sizedParams :=
+  fun _ he hok hw m hm q => flat_unsized_exact_uz h (noNesting_spec items hn) he hok W hw m hm q
+
+/-- **Exact coverage from the search, flat case, WITHOUT the hypothesis `SizedCompat`** (compare
+    `C02_end_to_end_flat_coverage`): each family is abstracted with the main impl's own `Sized` parameters -/
+theorem C15_end_to_end_flat_coverage (items : List T) (groups : Groups) (h : parseGroups items = .ok groups)
+    (hn : noNesting items = true) (hok : ∀ e ∈ groups, unsizedFlatOK_uz e = true)
+    (W : World) (hw : ∀ e ∈ groups, WorldTotal W (familyOfGroup (mainSizedParams_uz e) e)) (q : T) :
+    (∃ e ∈ groups, ∃ m ∈ (familyOfGroup (mainSizedParams_uz e) e).members,
+        genSel W (familyOfGroup (mainSizedParams_uz e) e) m q) ↔
+    (∃ it ∈ items, applies W (mkBlock (canon it)) q) :=
+  flat_coverage_unsized_uz h (noNesting_spec items hn) hok W hw q
+
+/-- **Whichever block wrote it / order-freeness** (restating `C05_flat_families_order_free`): for an un-nested invocation
+    and any permutation of its blocks, both accepted, the families correspond by header and corresponding families have
+    the same `?Sized` set (as a set), the same members up to order — hence the main impl relaxes the same bounded types -/
+theorem C15_unsized_order_free (items items' : List T) (g g' : Groups) (hp : items.Perm items')
+    (hn : noNesting items = true) (hwf : flatWF0 items = true)
+    (h : parseGroups items = .ok g) (h' : parseGroups items' = .ok g') :
+    ∀ e ∈ g, ∃ e' ∈ g', e'.1 = e.1 ∧ e.2.2.Perm e'.2.2 ∧ (∀ p, p ∈ e.2.1.unsized ↔ p ∈ e'.2.1.unsized) ∧
+      ∀ p, mainRelaxed_uz e p ↔ mainRelaxed_uz e' p := by
+  intro e he
+  obtain ⟨e', he', h1, h2, h3, _, h5⟩ := (C05_flat_families_order_free items items' g g' hp hn hwf h h').2.2 e he
+  refine ⟨e', he', h1, h2, h5, fun p => ?_⟩
+  unfold mainRelaxed_uz
+  rw [h5 p]
+  have hk : p ∈ keyTypes_uz e.2.1 ↔ p ∈ keyTypes_uz e'.2.1 := by
+    have hm : ∀ g : ABG, keyTypes_uz g = (g.bounds.map (fun kr => nk kr.1)).map (·.1) := by
+      intro g; simp [keyTypes_uz, nk, List.map_map, Function.comp_def]
+    rw [hm, hm]
+    exact (h3.map _).mem_iff
+  rw [hk]
+
+/-! ### Closed witnesses -/
+
+namespace ExU
+open Ex11
+/-- `?Sized` -/
+def maybeSized : T :=
+  .node "TypeParamBound::Trait" [] [.node "TraitBound" [] [leaf "None", leaf "TraitBoundModifier::Maybe", leaf "None", Ex11.path [Ex11.seg "Sized"]]]
+/-- `bounded: bs` as a where-predicate -/
+def wherePred (bounded : T) (bs : List T) : T :=
+  .node "WherePredicate::Type" [] [.node "PredicateType" [] [leaf "None", bounded, .node "List" [] bs]]
+/-- `impl<params> Kita for self where preds {}` -/
+def implOfW (params : List T) (self : T) (preds : List T) : T :=
+  .node "ItemImpl" [] [attrs, leaf "None", leaf "None",
+    .node "Generics" [] [leaf "Some", .node "List" [] params, leaf "Some",
+      .node "Some" [] [.node "WhereClause" [] [.node "List" [] preds]]],
+    .node "Some" [] [.node "Tuple" [] [leaf "None", Ex11.path [Ex11.seg "Kita"]]], self, .node "List" [] []]
+/-- D7's shape: `impl<T: ?Sized> Kita for Box<T> where Box<T>: Dispatch<Group = g> {}` -/
+def d7Block (g : String) : T := implOfW [tyParam "T" [maybeSized]] (boxOf tT) [wherePred (boxOf tT) [traitBound (dispatch g)]]
+/-- the same without the relaxation: `impl<T> Kita for Box<T> where Box<T>: Dispatch<Group = g> {}` -/
+def boxBlock (g : String) : T := implOfW [tyParam "T" []] (boxOf tT) [wherePred (boxOf tT) [traitBound (dispatch g)]]
+/-- `tests/unsized_type.rs`: `impl<T: ?Sized + Dispatch<Group = g>> Kita for T {}` -/
+def relaxedBlock (g : String) : T := implOf [tyParam "T" [maybeSized, traitBound (dispatch g)]] tT
+/-- the same with the relaxation in the where-clause: `impl<T: Dispatch<Group = g>> Kita for T where T: ?Sized {}` -/
+def relaxedBlockW (g : String) : T := implOfW [tyParam "T" [traitBound (dispatch g)]] tT [wherePred tT [maybeSized]]
+/-- `Kita<v>` -/
+def kitaOf (v : T) : T := Ex11.path [.node "PathSegment" [] [.node "Ident" ["Kita"] [],
+  .node "PathArguments::AngleBracketed" [] [.node "Ign" [] [leaf "None"], .node "List" [] [.node "GenericArgument::Type" [] [v]]]]]
+/-- `impl<params> tr for self {}` -/
+def implTr (params : List T) (tr self : T) : T :=
+  .node "ItemImpl" [] [attrs, leaf "None", leaf "None",
+    .node "Generics" [] [leaf "Some", .node "List" [] params, leaf "Some", leaf "None"],
+    .node "Some" [] [.node "Tuple" [] [leaf "None", tr]], self, .node "List" [] []]
+def tV : T := Ex11.tyPath [Ex11.seg "V"]
+def tA1 : T := Ex11.tyPath [Ex11.seg "A1"]
+def tA2 : T := Ex11.tyPath [Ex11.seg "A2"]
+def tB : T := Ex11.tyPath [Ex11.seg "B"]
+/-- the canonical parameter `_ŠČi` as a bounded type -/
+def cp (i : Nat) : T := .tparam (genIndexedIdent i)
+/-- summary of a family: (`abg.unsized`, bounded types of the keys, `Sized` parameters of the main impl, number of members,
+    `relaxedAreKeys_uz`, `sizedCompatB` of every member) -/
+def summary (e : T × ABG × List Blk) : List T × List T × List String × Nat × Bool × List Bool :=
+  (e.2.1.unsized, keyTypes_uz e.2.1, mainSizedParams_uz e, e.2.2.length, relaxedAreKeys_uz e,
+   (familyOfGroup (mainSizedParams_uz e) e).members.map (fun m => sizedCompatB (familyOfGroup (mainSizedParams_uz e) e) m))
+end ExU
+
+section UnsizedWitnesses
+open Ex11 ExU
+set_option maxRecDepth 1000000
+
+/-- D7 in the search model, both members relax: `impl<T: ?Sized> Kita for Box<T> where Box<T>: Dispatch<Group = GroupA>` +
+    `… GroupB`. `abg.unsized` KEEPS `T` (the bound `T: ?Sized` is itself a key `(T, Sized)` of both members, so `T` is the
+    bounded type of a key when `retain` runs; the key is pruned afterwards), but the only surviving key is bounded on
+    `Box<T>`, so the main impl declares `T` `Sized`: `sizedCompatB` fails for both members. -/
+theorem C15_counterexample_D7_search :
+    ∃ gs, parseGroups [d7Block "GroupA", d7Block "GroupB"] = .ok gs ∧
+      (noNesting [d7Block "GroupA", d7Block "GroupB"] &&
+        gs.map summary == [([cp 0], [boxOf (cp 0)], ["_ŠČ0"], 2, false, [false, false])]) = true :=
+  ParseResult.ok_of_check (f := fun gs => noNesting [d7Block "GroupA", d7Block "GroupB"] &&
+    gs.map summary == [([cp 0], [boxOf (cp 0)], ["_ŠČ0"], 2, false, [false, false])]) (by with_unfolding_all decide)
+
+/-- D7, only one of two members relaxes (`d7Block` + `boxBlock`): now `(T, Sized)` is not a common key and the `retain` of
+    lib.rs:472 drops `T` from `abg.unsized`; `sizedCompatB` fails for the member that relaxed. -/
+theorem C15_counterexample_D7_retain :
+    ∃ gs, parseGroups [d7Block "GroupA", boxBlock "GroupB"] = .ok gs ∧
+      (gs.map summary == [([], [boxOf (cp 0)], ["_ŠČ0"], 2, false, [false, true])]) = true :=
+  ParseResult.ok_of_check (f := fun gs => gs.map summary == [([], [boxOf (cp 0)], ["_ŠČ0"], 2, false, [false, true])])
+    (by with_unfolding_all decide)
+
+/-- the contrast: the single-member family keeps `T` in `abg.unsized` (`ABG.new`) — but the main impl still does not
+    relax it (`T` is not the bounded type of a key), so `sizedCompatB` fails all the same: D7 needs no second member,
+    and `relaxedAreKeys_uz` must not exempt single-member families. -/
+theorem C15_counterexample_D7_single :
+    ∃ gs, parseGroups [d7Block "GroupA"] = .ok gs ∧
+      (gs.map summary == [([cp 0], [boxOf (cp 0)], ["_ŠČ0"], 1, false, [false])]) = true :=
+  ParseResult.ok_of_check (f := fun gs => gs.map summary == [([cp 0], [boxOf (cp 0)], ["_ŠČ0"], 1, false, [false])])
+    (by with_unfolding_all decide)
+
+/-- hence `C15_sizedCompat_of_search_flat` is false without `relaxedAreKeys_uz` -/
+theorem C15_sizedCompat_of_search_flat_unconditional_false :
+    ¬ ∀ (items : List T) (groups : Groups), parseGroups items = .ok groups → noNesting items = true →
+        ∀ e ∈ groups, ∀ m ∈ (familyOfGroup (mainSizedParams_uz e) e).members,
+          sizedCompatB (familyOfGroup (mainSizedParams_uz e) e) m = true := by
+  intro hall
+  obtain ⟨gs, hgs, hchk⟩ := C15_counterexample_D7_search
+  simp only [Bool.and_eq_true, beq_iff_eq] at hchk
+  obtain ⟨hn, hmap⟩ := hchk
+  have hall' := hall _ gs hgs hn
+  cases gs with
+  | nil => simp at hmap
+  | cons e rest =>
+    simp only [List.map_cons, List.cons.injEq] at hmap
+    have h1 := hmap.1
+    simp only [summary, Prod.mk.injEq] at h1
+    have h2 := h1.2.2.2.2.2
+    cases hmem : (familyOfGroup (mainSizedParams_uz e) e).members with
+    | nil => rw [hmem] at h2; simp at h2
+    | cons m ms =>
+      rw [hmem] at h2
+      simp only [List.map_cons, List.cons.injEq] at h2
+      have := hall' e (by simp) m (by rw [hmem]; simp)
+      rw [this] at h2
+      exact absurd h2.1 (by simp)
+
+/-- NESTED, over-relaxation by spelling: `impl<T: Dispatch<Group = GroupA>> Kita for T` +
+    `impl<U: ?Sized> Kita for Box<U> where Box<U>: Dispatch<Group = GroupB>`. The nested member's `U` is `_ŠČ0` in ITS
+    numbering, the family's `T` is `_ŠČ0` in the family's; the union of lib.rs:432-433 is by spelling, so the family
+    relaxes `T` although NO block relaxed the parameter that is `T` (block 1 did not, and block 2 instantiates `T` with
+    the sized `Box<U>`). For `SizedCompat` this is harmless (`sizedCompatB` holds for both members); in Rust the main
+    impl becomes `impl<_ŠČ0: ?Sized> Kita for _ŠČ0`, which does NOT compile when the trait has a by-value `self` method
+    (E0277, confirmed with rustc on the real macro): relaxing in one block makes the invocation fail. -/
+theorem C15_nested_over_relaxation :
+    ∃ gs, parseGroups [blockFor "GroupA", d7Block "GroupB"] = .ok gs ∧
+      (!noNesting [blockFor "GroupA", d7Block "GroupB"] &&
+       gs.map summary == [([cp 0], [cp 0], [], 2, true, [true, true])] &&
+       gs.all (fun e => e.2.2.map (fun b => b.unsized) == [[], [cp 0]])) = true :=
+  ParseResult.ok_of_check (f := fun gs => !noNesting [blockFor "GroupA", d7Block "GroupB"] &&
+    gs.map summary == [([cp 0], [cp 0], [], 2, true, [true, true])] &&
+    gs.all (fun e => e.2.2.map (fun b => b.unsized) == [[], [cp 0]])) (by with_unfolding_all decide)
+
+/-- NESTED, lost relaxation by spelling (a DEFECT, coverage hole like D7 but on a key's own bounded type):
+    `impl<T, V: Dispatch<Group = GroupA>> Kita<T> for V` (`T` = `_ŠČ0`, `V` = `_ŠČ1`) +
+    `impl<A1, A2, B: ?Sized + Dispatch<Group = GroupB>> Kita<(A1, A2)> for B` (`B` = `_ŠČ2`). The nested member relaxes
+    `B`, the image of the family's key parameter `V`; its set `[_ŠČ2]` is united by spelling with the family's and then
+    filtered by the family's key types `[_ŠČ1]`: the relaxation is lost, the main impl requires `V: Sized`, and
+    `sizedCompatB` fails for the nested member (`str: Kita<(u8, u8)>` is not implemented although block 2 applies —
+    confirmed with rustc on the real macro). When the numbers happen to coincide (`Kita<Vec<A1>> for B`: `B` = `_ŠČ1`)
+    the relaxation survives. `relaxedAreKeys_uz` (a check for flat families) does not see it. -/
+theorem C15_nested_lost_relaxation :
+    let items := [implTr [tyParam "T" [], tyParam "V" [traitBound (dispatch "GroupA")]] (kitaOf tT) tV,
+      implTr [tyParam "A1" [], tyParam "A2" [], tyParam "B" [maybeSized, traitBound (dispatch "GroupB")]] (kitaOf (tup [tA1, tA2])) tB]
+    ∃ gs, parseGroups items = .ok gs ∧
+      (!noNesting items && gs.map summary == [([], [cp 1], ["_ŠČ0", "_ŠČ1"], 2, true, [true, false])] &&
+       gs.all (fun e => e.2.2.map (fun b => b.unsized) == [[], [cp 2]])) = true := by
+  intro items
+  exact ParseResult.ok_of_check (f := fun gs => !noNesting items &&
+    gs.map summary == [([], [cp 1], ["_ŠČ0", "_ŠČ1"], 2, true, [true, false])] &&
+    gs.all (fun e => e.2.2.map (fun b => b.unsized) == [[], [cp 2]])) (by with_unfolding_all decide)
+
+end UnsizedWitnesses
+
+/-! ### Non-vacuity: the shape of `tests/unsized_type.rs` -/
+
+namespace ExU
+open Ex11 E2E
+def strT : T := Ex11.tyPath [Ex11.seg "str"]
+/-- `[u8]` -/
+def sliceT : T := .node "Type::Slice" [] [Ex11.tyPath [Ex11.seg "u8"]]
+/-- `str: Dispatch<Group = GroupA>` (unsized), `u32: Dispatch<Group = GroupB>` (sized), `[u8]: Dispatch<Group = GroupB>`
+    (unsized); nothing else -/
+def WU : World :=
+  ⟨fun tr ty => if tr = dispTr ∧ ty = strT then some [("Group", Ex11.tyPath [Ex11.seg "GroupA"])]
+    else if tr = dispTr ∧ (ty = u32T ∨ ty = sliceT) then some [("Group", Ex11.tyPath [Ex11.seg "GroupB"])] else none,
+   fun t => t != strT && t != sliceT⟩
+/-- `impl<T: ?Sized + Dispatch<Group = GroupA>> Kita for T {}` + `impl<T: Dispatch<Group = GroupB>> Kita for T {}` -/
+def itemsU : List T := [relaxedBlock "GroupA", blockFor "GroupB"]
+/-- the same with the relaxation written in the where-clause, and the blocks in the other order -/
+def itemsU' : List T := [blockFor "GroupB", relaxedBlockW "GroupA"]
+def hdrU : T := .node "ImplGroupId" [] [.node "Some" [] [Ex11.path [Ex11.seg "Kita"]], .tparam "_ŠČ0"]
+end ExU
+
+section UnsizedExample
+open Ex11 E2E ExU
+set_option maxRecDepth 1000000
+
+theorem inst_hdrU_uz {ρ : Subst} {ty : T} (h : inst ρ hdrU = query ty) : inst ρ (.tparam "_ŠČ0") = ty := by
+  simp only [hdrU, query] at h
+  rw [inst_other ρ (by rfl)] at h
+  simp only [instL] at h
+  injection h with _ _ h3
+  injection h3 with _ h4
+  injection h4
+
+/-- NON-VACUITY of the flat `?Sized` theorems, on the shape of `tests/unsized_type.rs`
+    (`impl<T: ?Sized + Dispatch<Group = GroupA>> Kita for T` + `impl<T: Dispatch<Group = GroupB>> Kita for T`, the second
+    block not relaxing) and the world `ExU.WU` in which `str` and `[u8]` are unsized: the input is accepted, un-nested, its
+    family passes `unsizedFlatOK_uz` (so `sizedCompatB`/`SizedCompat` hold by `C15_sizedCompat_of_search_flat`), the main
+    impl has no `Sized` parameter left, and by `C15_end_to_end_flat_coverage`
+    * the generated program implements `Kita` for the UNSIZED `str` (through the member that relaxed),
+    * for the sized `u32` (through the member that did not relax — relaxing in one block does not disturb the other),
+    * and NOT for the unsized `[u8]`, whose `Group` selects the member that did not relax: no leak, although the main impl
+      is relaxed. -/
+theorem C15_unsized_type_example :
+    ∃ gs, parseGroups itemsU = .ok gs ∧ noNesting itemsU = true ∧
+      (∀ e ∈ gs, unsizedFlatOK_uz e = true ∧ mainSizedParams_uz e = [] ∧
+        ∀ m ∈ (familyOfGroup (mainSizedParams_uz e) e).members, sizedCompatB (familyOfGroup (mainSizedParams_uz e) e) m = true) ∧
+      (∀ q, (∃ e ∈ gs, ∃ m ∈ (familyOfGroup (mainSizedParams_uz e) e).members,
+              genSel WU (familyOfGroup (mainSizedParams_uz e) e) m q) ↔ (∃ it ∈ itemsU, applies WU (mkBlock (canon it)) q)) ∧
+      (∃ e ∈ gs, ∃ m ∈ (familyOfGroup (mainSizedParams_uz e) e).members,
+        genSel WU (familyOfGroup (mainSizedParams_uz e) e) m (query strT)) ∧
+      (∃ e ∈ gs, ∃ m ∈ (familyOfGroup (mainSizedParams_uz e) e).members,
+        genSel WU (familyOfGroup (mainSizedParams_uz e) e) m (query u32T)) ∧
+      ¬ (∃ e ∈ gs, ∃ m ∈ (familyOfGroup (mainSizedParams_uz e) e).members,
+        genSel WU (familyOfGroup (mainSizedParams_uz e) e) m (query sliceT)) := by
+  obtain ⟨gs, hgs, hchk⟩ := ParseResult.ok_of_check (r := parseGroups itemsU)
+    (f := fun gs => gs.all (fun e => unsizedFlatOK_uz e && mainSizedParams_uz e == [] &&
+      (familyOfGroup (mainSizedParams_uz e) e).keys.all (fun k => k.a == "Group"))) (by with_unfolding_all decide)
+  have hn : noNesting itemsU = true := by with_unfolding_all decide
+  simp only [List.all_eq_true, Bool.and_eq_true, beq_iff_eq] at hchk
+  have hok : ∀ e ∈ gs, unsizedFlatOK_uz e = true := fun e he => (hchk e he).1.1
+  have hw : ∀ e ∈ gs, WorldTotal WU (familyOfGroup (mainSizedParams_uz e) e) := by
+    intro e he k hk tr ty bs hd
+    rw [(hchk e he).2 k hk]
+    simp only [WU] at hd
+    split at hd
+    · cases hd; exact ⟨_, rfl⟩
+    · split at hd
+      · cases hd; exact ⟨_, rfl⟩
+      · cases hd
+  have hcov := C15_end_to_end_flat_coverage itemsU gs hgs hn hok WU hw
+  have hb1 : mkBlock (canon (relaxedBlock "GroupA")) =
+      ⟨hdrU, [⟨.tparam "_ŠČ0", dispTr, [("Group", Ex11.tyPath [Ex11.seg "GroupA"])]⟩], []⟩ := by with_unfolding_all decide
+  have hb2 : mkBlock (canon (blockFor "GroupB")) =
+      ⟨hdrU, [⟨.tparam "_ŠČ0", dispTr, [("Group", Ex11.tyPath [Ex11.seg "GroupB"])]⟩], ["_ŠČ0"]⟩ := by with_unfolding_all decide
+  refine ⟨gs, hgs, hn, fun e he => ⟨hok e he, (hchk e he).1.2, ?_⟩, hcov, (hcov _).2 ?_, (hcov _).2 ?_, ?_⟩
+  · obtain ⟨_, _, ok3, ok4, ok5⟩ := unsizedFlatOK_spec_uz (hok e he)
+    exact C15_sizedCompat_of_search_flat itemsU gs hgs hn e he ok5 ok3 ok4
+  · exact ⟨relaxedBlock "GroupA", by simp [itemsU],
+      applies_of_B (ρ := [("_ŠČ0", .ty strT)]) (by with_unfolding_all decide)⟩
+  · exact ⟨blockFor "GroupB", by simp [itemsU],
+      applies_of_B (ρ := [("_ŠČ0", .ty u32T)]) (by with_unfolding_all decide)⟩
+  · intro hsel
+    obtain ⟨it, hit, ρ, _, hq, hc, hsz⟩ := (hcov _).1 hsel
+    simp only [itemsU, List.mem_cons, List.not_mem_nil, or_false] at hit
+    rcases hit with rfl | rfl
+    · -- the relaxing block requires `Group = GroupA`
+      rw [hb1] at hq hc
+      have hty := inst_hdrU_uz hq
+      obtain ⟨bs, hd, hb⟩ := hc _ (List.mem_singleton.2 rfl)
+      simp only at hd hb
+      rw [hty, inst_closed ρ dispTr (by decide)] at hd
+      have hbs : bs = [("Group", Ex11.tyPath [Ex11.seg "GroupB"])] := by
+        have : WU.disp dispTr sliceT = some [("Group", Ex11.tyPath [Ex11.seg "GroupB"])] := by decide
+        rw [this] at hd
+        exact (Option.some.inj hd).symm
+      have := hb "Group" (Ex11.tyPath [Ex11.seg "GroupA"]) (List.mem_singleton.2 rfl)
+      rw [hbs, inst_closed ρ _ (by decide)] at this
+      revert this
+      decide
+    · -- the other block requires `Sized`
+      rw [hb2] at hq hsz
+      have hty := inst_hdrU_uz hq
+      have := hsz "_ŠČ0" (List.mem_singleton.2 rfl)
+      rw [hty] at this
+      revert this
+      decide
+
+/-- "whether the relaxation was written inline or in the where-clause and whichever block of the family wrote it": the
+    variant with the relaxation in the where-clause of the block that now comes second is accepted with the same `?Sized`
+    set, passes the same checks, and `sizedCompatB` holds for both members -/
+theorem C15_unsized_type_example_where_clause :
+    ∃ gs, parseGroups itemsU' = .ok gs ∧
+      (noNesting itemsU' && gs.map summary == [([cp 0], [cp 0], [], 2, true, [true, true])] &&
+       gs.all unsizedFlatOK_uz) = true :=
+  ParseResult.ok_of_check (f := fun gs => noNesting itemsU' &&
+    gs.map summary == [([cp 0], [cp 0], [], 2, true, [true, true])] && gs.all unsizedFlatOK_uz)
+    (by with_unfolding_all decide)
+
+end UnsizedExample
+
+/-! ### Relaxing does not make the invocation fail for the others: what the search reads -/
+
+/-- the keys and rows a block founds a family with (`AssocBoundsGroup::new`) do not depend on which of its bounds carry a
+    `?` modifier (`stripMaybe_uz b`: all modifiers erased) -/
+theorem C15_new_keys_ignore_relaxation (b : Blk) : (ABG.new (stripMaybe_uz b)).bounds = (ABG.new b).bounds :=
+  new_bounds_stripMaybe_uz b
+
+/-- the keys and rows of every result of `intersection` depend neither on the `unsized` set of the family (replaced by
+    any `u`) nor on the `?` modifiers of the joining block -/
+theorem C15_intersection_keys_ignore_relaxation (g : ABG) (u : List T) (other : Blk) (σ : Subst) :
+    ((withUnsized_uz g u).intersection (stripMaybe_uz other) σ).map (·.bounds) = (g.intersection other σ).map (·.bounds) :=
+  intersection_bounds_uz g u other σ
+
+/-- the candidate filter — the only place where a candidate grouping is rejected — does not read the `unsized` sets:
+    replacing the set of every group `e` by an arbitrary `U e` changes neither the verdict nor the keys, rows and members
+    of the candidate that passes -/
+theorem C15_filter_ignores_unsized (U : T × ABG × List Blk → List T) (gs : Groups) :
+    (filterCandidate (gs.map (fun e => (e.1, withUnsized_uz e.2.1 (U e), e.2.2)))).isSome = (filterCandidate gs).isSome ∧
+    filterCandidate (gs.map (fun e => (e.1, withUnsized_uz e.2.1 (U e), e.2.2))) =
+      (filterCandidate gs).map (fun p => (List.zip gs p).map (fun ep => (ep.2.1, withUnsized_uz ep.2.2.1 (U ep.1), ep.2.2.2))) :=
+  ⟨filterCandidate_isSome_withUnsized_uz U gs, filterCandidate_withUnsized_uz U gs⟩
+
+namespace ExU
+open Ex11
+/-- `impl<T: Dispatch<Group = g>, U> Kita for T {}` (a second, textually different block with the same header) -/
+def blockU (g : String) : T := implOf [tyParam "T" [traitBound (dispatch g)], tyParam "U" []] tT
+/-- `impl<T: ?Sized + Dispatch<Group = g>, U> Kita for T {}` -/
+def relaxedBlockU (g : String) : T := implOf [tyParam "T" [maybeSized, traitBound (dispatch g)], tyParam "U" []] tT
+end ExU
+/-- acceptance, and on acceptance the keys and rows of the families -/
+def ParseResult.verdict_uz : ParseResult → Option (List (List (BKey × List Row)))
+  | .ok gs => some (gs.map (fun e => e.2.1.bounds))
+  | _ => none
+
+section RelaxAcceptance
+open Ex11 ExU
+set_option maxRecDepth 1000000
+
+/-- closed instances of "relaxing a parameter in one block does not change acceptance": an accepted pair of blocks stays
+    accepted, with the same keys and rows, when the first, the second or both blocks relax `T` (inline or in the
+    where-clause); a rejected pair (same `Group` twice) stays rejected -/
+theorem C15_relaxation_does_not_affect_acceptance_examples :
+    ((parseGroups [blockFor "GroupA", blockU "GroupB"]).verdict_uz.isSome &&
+     (parseGroups [relaxedBlock "GroupA", blockU "GroupB"]).verdict_uz == (parseGroups [blockFor "GroupA", blockU "GroupB"]).verdict_uz &&
+     (parseGroups [blockFor "GroupA", relaxedBlockU "GroupB"]).verdict_uz == (parseGroups [blockFor "GroupA", blockU "GroupB"]).verdict_uz &&
+     (parseGroups [relaxedBlockW "GroupA", relaxedBlockU "GroupB"]).verdict_uz ==
+       (parseGroups [blockFor "GroupA", blockU "GroupB"]).verdict_uz) = true ∧
+    ((parseGroups [blockFor "GroupA", blockU "GroupA"]).verdict_uz.isNone &&
+     (parseGroups [relaxedBlock "GroupA", blockU "GroupA"]).verdict_uz.isNone &&
+     (parseGroups [relaxedBlock "GroupA", relaxedBlockU "GroupA"]).verdict_uz.isNone) = true := by
+  with_unfolding_all decide
+
+/-- non-vacuity of `C15_unsized_order_free`: the `tests/unsized_type.rs` pair and its reversal -/
+example : ∃ gs gs', parseGroups itemsU = .ok gs ∧ parseGroups itemsU.reverse = .ok gs' ∧
+    ∀ e ∈ gs, ∃ e' ∈ gs', e'.1 = e.1 ∧ e.2.2.Perm e'.2.2 ∧ (∀ p, p ∈ e.2.1.unsized ↔ p ∈ e'.2.1.unsized) ∧
+      ∀ p, mainRelaxed_uz e p ↔ mainRelaxed_uz e' p := by
+  have hn : noNesting itemsU = true := by with_unfolding_all decide
+  have hwf : flatWF itemsU = true := by with_unfolding_all decide
+  obtain ⟨gs, hgs, _⟩ := ParseResult.ok_of_check (r := parseGroups itemsU) (f := fun _ => true) (by with_unfolding_all decide)
+  obtain ⟨gs', hgs', _⟩ := ParseResult.ok_of_check (r := parseGroups itemsU.reverse) (f := fun _ => true)
+    (by with_unfolding_all decide)
+  exact ⟨gs, gs', hgs, hgs', C15_unsized_order_free itemsU itemsU.reverse gs gs' (List.reverse_perm itemsU).symm hn
+    (flatWF0_of_flatWF hwf) hgs hgs'⟩
+
+/-- non-vacuity of `C15_sizedCompatB_sound` (a nested member: `θ(_ŠČ0) = Vec<_ŠČ0>`, a constructed type) in the world
+    `ConstHdr.W` where everything is `Sized` -/
+example : SizedWorld_uz ConstHdr.W ∧ sizedCompatB ConstHdr.FA ConstHdr.mA' = true ∧ noCtor_uz ConstHdr.mA'.θ = false ∧
+    SizedCompat ConstHdr.W ConstHdr.FA ConstHdr.mA' := by
+  have h1 : SizedWorld_uz ConstHdr.W := fun _ _ _ _ _ => rfl
+  have h2 : sizedCompatB ConstHdr.FA ConstHdr.mA' = true := by decide
+  exact ⟨h1, h2, by decide, C15_sizedCompatB_sound _ h1 _ _ h2⟩
+
+/-- the world condition of `C15_sizedCompatB_sound` cannot be dropped: `sizedCompatB` accepts a member whose substitution
+    sends a `Sized` parameter of the main impl to the constructed type `str` (a `Type::Path`), but in a world where `str` is
+    unsized `SizedCompat` fails -/
+theorem C15_sizedCompatB_sound_counterexample :
+    ∃ (W : World) (F : Family) (m : Member), sizedCompatB F m = true ∧ ¬ SizedCompat W F m := by
+  let strT : T := .node "Type::Path" [] [.node "str" [] []]
+  let W : World := ⟨fun _ _ => none, fun t => t != strT⟩
+  let blk : Block := ⟨strT, [], []⟩
+  let m : Member := ⟨blk, [("p", .ty strT)], []⟩
+  let F : Family := ⟨.tparam "p", [], ["p"], [m]⟩
+  refine ⟨W, F, m, by decide, ?_⟩
+  intro h
+  have := h [] (by decide) (fun p hp => by cases hp) "p" (List.mem_singleton.2 rfl)
+  revert this
+  decide
+
+end RelaxAcceptance
+
+/-! ### `mainSizedParams_uz` against the model of the generator -/
+
+/-- the `Sized` parameters that `Bounds.mkBlock` reads off the main impl the model's generator `mainImplOfTrait` returns
+    for a group `e` are among `mainSizedParams_uz e`. (Not equal in general: the generator drops the parameters the main
+    impl does not mention, and the trait's own where-clause may relax further ones; `sizedCompatB` is antitone in this
+    set.) No side condition. -/
+theorem C15_mainSizedParams_of_generator (trait_ : T) (idx : Nat) (e : T × ABG × List Blk) (m : T)
+    (h : mainImplOfTrait trait_ idx e = .ok m) : ∀ p ∈ (mkBlock m).sizedParams, p ∈ mainSizedParams_uz e :=
+  mainImpl_sizedParams_sub_uz h
+
+/-- **`SizedCompat` from the search, flat case, for the family as the checks abstract it**: with the `Sized` parameters
+    read off the GENERATED main impl (`Bounds.mkFamily`, the driver's `family` command), `sizedCompatB` holds for every
+    member, and `SizedCompat` in every world -/
+theorem C15_sizedCompat_of_search_flat_generated (items : List T) (groups : Groups) (h : parseGroups items = .ok groups)
+    (hn : noNesting items = true) (trait_ : T) (idx : Nat) (W : World) :
+    ∀ e ∈ groups, selfIdentity e.1 = true → mainParamsOK_uz e = true → relaxedAreKeys_uz e = true →
+      ∀ m, mainImplOfTrait trait_ idx e = .ok m →
+      ∀ mem ∈ (familyOfGroup (mkBlock m).sizedParams e).members,
+        sizedCompatB (familyOfGroup (mkBlock m).sizedParams e) mem = true ∧
+        SizedCompat W (familyOfGroup (mkBlock m).sizedParams e) mem :=
+  fun _ he hs hp hr _ hm => flat_sizedCompatB_mainImpl_uz h (noNesting_spec items hn) he hs hp hr hm W
+
+section GeneratorExamples
+open Ex11 ExU
+set_option maxRecDepth 1000000
+
+/-- non-vacuity / agreement on the closed inputs: the `tests/unsized_type.rs` pair (main impl fully relaxed), D7 with both
+    members relaxing (main impl keeps `_ŠČ0` `Sized`), and the nested over-relaxation (main impl relaxed although no
+    block relaxed the family's parameter): in all three the generated main impl's `Sized` parameters EQUAL
+    `mainSizedParams_uz` -/
+example :
+    (ExOK.checkFirst itemsU (fun g _ m => (mkBlock m).sizedParams == [] && mainSizedParams_uz g == [] &&
+      mainParamsOK_uz g && relaxedAreKeys_uz g && selfIdentity g.1) &&
+     ExOK.checkFirst [d7Block "GroupA", d7Block "GroupB"]
+      (fun g _ m => (mkBlock m).sizedParams == ["_ŠČ0"] && mainSizedParams_uz g == ["_ŠČ0"]) &&
+     ExOK.checkFirst [blockFor "GroupA", d7Block "GroupB"]
+      (fun g _ m => (mkBlock m).sizedParams == [] && mainSizedParams_uz g == [])) = true := by
+  with_unfolding_all decide
+
+end GeneratorExamples
 
 end DI
